@@ -16,3 +16,7 @@ func (p *GroupCache) VerifInner() Provider { return p.provider }
 
 // VerifCache exposes the group cache's store (verification harness only, build tag verif).
 func (p *GroupCache) VerifCache() Cache { return p.cache }
+
+// VerifWrapCache lets the harness put a wrapper around the group cache's store (to see which keys are set, whatever
+// their encoding and whatever the store is made of).
+func (p *GroupCache) VerifWrapCache(wrap func(Cache) Cache) { p.cache = wrap(p.cache) }
